@@ -11,7 +11,8 @@
 //    {"e":"Cfg",signal,rules,dflt} {"e":"Get",scope,"eq":[h..]} {"e":"Emit","h","appeared":bool}
 //    and validated by spec/ScopeConfigTrace.tla.
 //
-// Concretisation: scope name token N -> "lib"+N or "io.example."+lower(N) (variant by seed), version
+// Concretisation: scope name token N -> "lib"+N | "io.example."+lower(N) | "svc.a", "svc.a.b", ... (names
+// that are prefixes of one another) (variant by seed), version
 // and schema as given ("s" -> https://example.test/s), attr "a" -> {"scope.attr": "a"}; the strings
 // are passed as NON-terminated views into heap blocks that are overwritten and freed after the call.
 // Rules: name -> AddConditionNameEquals, ver/any/none -> AddCondition(lambda).
@@ -58,6 +59,8 @@ struct Conc
   {
     if (variant == 0)
       return "lib" + n;
+    if (variant == 2)  // names that are prefixes of one another
+      return std::string("svc.a.b.c.d.e.f").substr(0, 5 + 2 * static_cast<size_t>(n.empty() ? 0 : (n[0] - 'A') % 6));
     std::string l = n;
     for (auto &ch : l)
       ch = static_cast<char>(tolower(ch));
@@ -271,7 +274,7 @@ int run_scopes(std::istream &in, uint64_t seed, int instances)
     for (int k = 0; k < instances; ++k)
     {
       Rng rng(mix(seed, static_cast<uint64_t>(id), static_cast<uint64_t>(k)));
-      Sut sut(c["signal"], c["rules"], c["dflt"], Conc{static_cast<int>(rng.below(2))});
+      Sut sut(c["signal"], c["rules"], c["dflt"], Conc{static_cast<int>(rng.below(3))});
       json res = json::array();
       for (auto &st : c["steps"])
       {
@@ -349,7 +352,7 @@ int run_record(uint64_t seed, int executions, int ops)
     }
     bool dflt = rng.below(3) != 0;
     std::cout << json({{"e", "Cfg"}, {"signal", signal}, {"rules", rules}, {"dflt", dflt}}).dump() << "\n";
-    Sut sut(signal, rules, dflt, Conc{static_cast<int>(rng.below(2))});
+    Sut sut(signal, rules, dflt, Conc{static_cast<int>(rng.below(3))});
     for (int o = 0; o < ops; ++o)
     {
       if (sut.nhandles() == 0 || rng.below(5) < 2)
